@@ -56,7 +56,7 @@ def shape(t):
         return shape(t[3])
     if k in ("mulc", "scale"):
         return shape(t[2])
-    if k in ("real", "imag", "conj", "lsub", "lsubf", "mprod", "msum"):
+    if k in ("real", "imag", "conj", "lsub", "lsubf", "mprod", "msum", "sub"):
         return shape(t[1])
     if k == "ptw":
         return shape(t[3])
@@ -163,6 +163,8 @@ class Impl:
             return self.op(t[1]) * self.op(t[2])
         if k == "add":
             return self.op(t[1]) + self.op(t[2])
+        if k == "sub":
+            return self.op(t[1]) - self.op(t[2])       # Operator.__sub__: _OpSum(self, -x)
         if k == "sum":
             return self.op(t[1]).sum()
         if k == "vdot":
@@ -220,6 +222,8 @@ class Impl:
             return self.lin(t[1], l0) * self.lin(t[2], l0)
         if k == "add":
             return self.lin(t[1], l0) + self.lin(t[2], l0)
+        if k == "sub":
+            return self.lin(t[1], l0) - self.lin(t[2], l0)   # Linearization._myadd(other, neg=True)
         if k == "sum":
             return self.lin(t[1], l0).sum()
         if k == "vdot":
@@ -369,7 +373,7 @@ def ref(t, x, n):
         r = [u * w for u, w in zip(ref(t[1], x, n), ref(t[2], x, n))]
     elif k == "add":
         r = [u + w for u, w in zip(ref(t[1], x, n), ref(t[2], x, n))]
-    elif k in ("lsub", "lsubf"):
+    elif k in ("lsub", "lsubf", "sub"):
         r = [u - w for u, w in zip(ref(t[1], x, n), ref(t[2], x, n))]
     elif k == "mprod":
         f, g, h, kk = [ref(u, x, n) for u in t[1:5]]
@@ -438,7 +442,7 @@ def pathmag(t, x, n):
         ps = [pathmag(u, x, n) for u in t[1:5]]
         vs = [mx(ref(u, x, n)) for u in t[1:5]] if k == "mprod" else [1, 1, 1, 1]
         return max(ps[0][0] * vs[2], ps[2][0] * vs[0], ps[1][0] * vs[3], ps[3][0] * vs[1]), sum(p[1] for p in ps)
-    if k in ("add", "eadd", "lsub", "lsubf"):
+    if k in ("add", "eadd", "lsub", "lsubf", "sub"):
         a1, l1 = pathmag(t[1], x, n)
         a2, l2 = pathmag(t[2], x, n)
         return max(a1, a2), l1 + l2
@@ -517,7 +521,7 @@ def gen_tree(rng, depth, n, K, shp="F"):
         return ("ptw", nm, list(args), gen_tree(rng, depth - 1, n, K, shp))
     if c == 7:
         return ("mul", gen_tree(rng, depth - 1, n, K, shp), gen_tree(rng, depth - 1, n, K, shp))
-    return ("add", gen_tree(rng, depth - 1, n, K, shp), gen_tree(rng, depth - 1, n, K, shp))
+    return ("add" if rng.random() < 0.6 else "sub", gen_tree(rng, depth - 1, n, K, shp), gen_tree(rng, depth - 1, n, K, shp))
 
 
 def gen_linear(rng, depth, n, K):
@@ -636,8 +640,9 @@ def cexpr(t, n):
         return "(Add (Mul %s %s) (Mul %s %s))" % (cexpr(t[1], n), cexpr(t[3], n), cexpr(t[2], n), cexpr(t[4], n))
     if k == "msum":
         return "(Add (Add %s %s) (Add %s %s))" % (cexpr(t[1], n), cexpr(t[3], n), cexpr(t[2], n), cexpr(t[4], n))
-    if k in ("lsub", "lsubf"):
-        # the linear SumOperator a - b is modelled by its meaning  a + (-1)*b
+    if k in ("lsub", "lsubf", "sub"):
+        # a - b (Operator.__sub__ = _OpSum(a, -b); Linearization.__sub__ = _myadd(neg=True); the linear SumOperator
+        # a - b) is modelled by its meaning  a + (-1)*b
         return "(Add %s (Scale (q (-1) 1) %s))" % (cexpr(t[1], n), cexpr(t[2], n))
     m = n
     if k == "sum":
@@ -1027,6 +1032,112 @@ def jax_direct(inp):
     return None
 
 
+def linsub_direct(inp):
+    """Linearization arithmetic on a SINGLE field (Jacobians are bare linear operators: SumOperator with neg flags and its
+    simplification):  expr(a) = S(a) +/- f1(a) +/- f2(a) [+/- f3(a)]  with S a non-diagonal linear operator (dense matrix,
+    harmonic smoothing), the identity or a diagonal, and f_i point-wise.  Value against the Field evaluation, J.d and
+    J^T.c against the analytic derivative and finite differences."""
+    import nifty.cl as ift
+    rng = np.random.default_rng([inp["seed"], 1111])
+    n = inp["n"]
+    dom = ift.DomainTuple.make(ift.RGSpace(n, distances=0.3))
+    xv, dv, cv = [rng.normal(size=n) for _ in range(3)]
+    lead = inp["lead"]
+    if lead == "matrix":
+        Mm = rng.normal(size=(n, n))
+        S = ift.MatrixProductOperator(dom, Mm)
+        Sd, Sad = (lambda v: Mm @ v), (lambda v: Mm.T @ v)
+    elif lead == "smooth":
+        S = ift.HarmonicSmoothingOperator(dom, 0.4)
+        Sd = lambda v: S(ift.Field.from_raw(dom, v)).asnumpy()
+        Sad = lambda v: S.adjoint_times(ift.Field.from_raw(dom, v)).asnumpy()
+    elif lead == "diag":
+        dg = rng.normal(size=n)
+        S = ift.makeOp(ift.Field.from_raw(dom, dg))
+        Sd = Sad = (lambda v: dg * v)
+    else:
+        S = ift.ScalingOperator(dom, 1.)
+        Sd = Sad = (lambda v: v)
+    table = {"sin": np.cos, "tanh": lambda v: 1 - np.tanh(v) ** 2, "exp": np.exp, "arctan": lambda v: 1 / (1 + v * v), "sigmoid": lambda v: 0.5 - 0.5 * np.tanh(v) ** 2}
+    terms = inp["terms"]          # [(neg, name), ...]
+
+    def expr(a):
+        r = S(a)
+        for neg, nm in terms:
+            r = r - a.ptw(nm) if neg else r + a.ptw(nm)
+        return r
+
+    x = ift.Field.from_raw(dom, xv)
+    lin = expr(ift.Linearization.make_var(x))
+    if not np.allclose(lin.val.asnumpy(), expr(x).asnumpy(), rtol=1e-12, atol=1e-12):
+        return ("value", "Linearization value of S(a) -/+ f_i(a) differs from the Field evaluation")
+    dsum = sum((-1 if neg else 1) * table[nm](xv) for neg, nm in terms)
+    jd, ja = lin.jac(ift.Field.from_raw(dom, dv)).asnumpy(), lin.jac.adjoint_times(ift.Field.from_raw(dom, cv)).asnumpy()
+    if not np.allclose(jd, Sd(dv) + dsum * dv, rtol=1e-10, atol=1e-12):
+        return ("jacobian", "J.d of %s(a) %s is %r, true derivative %r" % (lead, "".join(("-" if ng else "+") + nm + "(a)" for ng, nm in terms),
+                                                                        jd.tolist(), (Sd(dv) + dsum * dv).tolist()))
+    if not np.allclose(ja, Sad(cv) + dsum * cv, rtol=1e-10, atol=1e-12):
+        return ("jacobian_adjoint", "J^T.c of %s(a) %s is wrong" % (lead, terms))
+    eps = 1e-5
+    fd = (expr(ift.Field.from_raw(dom, xv + eps * dv)).asnumpy() - expr(ift.Field.from_raw(dom, xv - eps * dv)).asnumpy()) / (2 * eps)
+    if not np.allclose(jd, fd, rtol=1e-6, atol=1e-7):
+        return ("jacobian_fd", "J.d disagrees with finite differences")
+    return None
+
+
+def cmetric_direct(inp):
+    """A requested metric pulled back through a COMPLEX Jacobian: GaussianEnergy(d, N) behind a ScalingOperator with a
+    complex factor c (metric must be |c|^2 N), `lh(c*lin)`, and behind c * holomorphic function; against J^dagger N J
+    assembled from the inner Jacobian's own TIMES / ADJOINT_TIMES."""
+    import nifty.cl as ift
+    rng = np.random.default_rng([inp["seed"], 2222])
+    n = inp["n"]
+    dom = ift.DomainTuple.make(ift.UnstructuredDomain(n))
+    cpx = lambda: rng.normal(size=n) + 1j * rng.normal(size=n)
+    x, t, d = [ift.Field.from_raw(dom, cpx()) for _ in range(3)]
+    Nv = rng.uniform(0.5, 2.0, size=n)
+    icov = ift.makeOp(ift.Field.from_raw(dom, Nv), sampling_dtype=np.complex128)
+    lh = ift.GaussianEnergy(data=d, inverse_covariance=icov)
+    c = complex(inp["c"][0], inp["c"][1]) if inp["c"][1] != 0.0 else float(inp["c"][0])
+    form = inp["form"]
+    sc = ift.ScalingOperator(dom, c)
+    if form == "chain":
+        inner = sc
+        op = lh @ sc
+        lin = op(ift.Linearization.make_var(x, True))
+    elif form == "linmul":
+        inner = sc
+        lin = lh(ift.Linearization.make_var(x, True) * c)
+    else:
+        inner = sc @ ift.ScalingOperator(dom, 1.).ptw("exp")
+        op = lh @ inner
+        lin = op(ift.Linearization.make_var(x, True))
+    if lin.metric is None:
+        return ("metric", "want_metric was requested but the energy behind a complex scaling has no metric")
+    li = inner(ift.Linearization.make_var(x)) if not isinstance(inner, ift.LinearOperator) else None
+    J = inner if li is None else li.jac
+    want = J.adjoint_times(icov(J(t))).asnumpy()
+    got = lin.metric(t).asnumpy()
+    if not np.allclose(got, want, rtol=1e-10, atol=1e-12):
+        return ("metric", "metric behind the complex factor %r applied to t is %r, J^dagger N J t is %r" % (c, got.tolist(), want.tolist()))
+    return None
+
+
+def outer_direct(inp):
+    """Linearization.outer(field): value self.val (x) other, Jacobian d -> (J d) (x) other on the Linearization's domain."""
+    import nifty.cl as ift
+    rng = np.random.default_rng([inp.get("seed", 0), 3333])
+    d1, d2 = ift.DomainTuple.make(ift.UnstructuredDomain(2)), ift.DomainTuple.make(ift.UnstructuredDomain(3))
+    xv, dv, ov = rng.normal(size=2), rng.normal(size=2), rng.normal(size=3)
+    try:
+        l = ift.Linearization.make_var(ift.Field.from_raw(d1, xv)).ptw("exp").outer(ift.Field.from_raw(d2, ov))
+        ok = np.allclose(l.val.asnumpy(), np.multiply.outer(np.exp(xv), ov)) and l.jac.domain is d1 and \
+            np.allclose(l.jac(ift.Field.from_raw(d1, dv)).asnumpy(), np.multiply.outer(np.exp(xv) * dv, ov))
+        return None if ok else ("outer", "wrong value or Jacobian")
+    except Exception as e:
+        return ("outer", "raises %s: %s" % (type(e).__name__, str(e)[:120]))
+
+
 def nonsquare_direct(inp):
     """Key extraction / insertion / transposition on NON-SQUARE Linearizations (Jacobian domain != value domain), and the
     adjoint of a complex-valued JaxOperator for a real cotangent.  Returns a list of (check, detail)."""
@@ -1142,7 +1253,7 @@ class FloatGen:
             return sub
         if c == 7:
             return ("mul", self.gen(depth - 1, shp), self.gen(depth - 1, shp))
-        return ("add", self.gen(depth - 1, shp), self.gen(depth - 1, shp))
+        return ("add" if rng.random() < 0.6 else "sub", self.gen(depth - 1, shp), self.gen(depth - 1, shp))
 
     def valid_at(self, x):
         X = self.impl.point(x)
@@ -1568,6 +1679,35 @@ class C03(C.Check):
                 res.add_failing({"fn": fn, "check": "real_cotangent" if fn == "JaxLinearOperator" else "nonsquare", "method": which},
                                 "%s on a non-square Linearization: %s" % (which, f[1]) if fn == "Linearization" else
                                 "adjoint of a complex-valued JaxOperator for a real cotangent: %s" % f[1], inp)
+        # 2a1. single-field Linearization differences (SumOperator with neg flags), complex metric pull-back, outer
+        leads = ["matrix", "smooth", "identity", "diag"]
+        names = ["sin", "tanh", "exp", "arctan", "sigmoid"]
+        for li in range((8 if ctx.quick else 40) * budget):
+            nterms = 2 + li % 2
+            terms = [[bool((li >> j) & 1) if li % 4 else True, names[(li + j) % len(names)]] for j in range(nterms)]
+            inp = {"kind": "direct", "what": "linsub", "n": 4 + li % 3, "seed": ctx.seed * 100 + li, "lead": leads[li % 4], "terms": terms}
+            nev += 1
+            try:
+                f = run_direct(inp)
+            except Exception as e:
+                f = ("raised", "%s: %s" % (type(e).__name__, str(e)[:300]))
+            if f:
+                res.add_failing({"fn": "Linearization._myadd", "check": f[0], "lead": inp["lead"]}, f[1], inp)
+        for mi in range((6 if ctx.quick else 24) * budget):
+            cfac = [(0.6, 0.8), (0.0, 1.0), (-1.5, 0.5), (2.0, 0.0), (-0.5, 0.0), (1.0, 1.0)][mi % 6]
+            inp = {"kind": "direct", "what": "cmetric", "n": 2 + mi % 2, "seed": ctx.seed * 100 + mi, "c": list(cfac), "form": ["chain", "linmul", "holo"][mi % 3]}
+            nev += 1
+            try:
+                f = run_direct(inp)
+            except Exception as e:
+                f = ("raised", "%s: %s" % (type(e).__name__, str(e)[:300]))
+            if f:
+                res.add_failing({"fn": "SandwichOperator.make", "check": f[0], "complex_factor": cfac[1] != 0.0}, f[1], inp)
+        nev += 1
+        f = outer_direct({"seed": ctx.seed})
+        if f:
+            res.add_failing({"fn": "Linearization.outer", "check": "outer"}, "Linearization.outer(field): %s" % f[1],
+                            {"kind": "direct", "what": "outer", "seed": ctx.seed})
         # 2a'. JaxOperator: single use and call histories (linearize at x1, at x2, then use J1)
         for ji in range((4 if ctx.quick else 16) * budget):
             nev += 1
@@ -1705,6 +1845,15 @@ def run_direct(inp):
     from nifty.cl import pointwise
     if inp["what"] == "einsum":
         return ein_direct(inp["ein"], inp.get("seed", 0))
+    if inp["what"] == "linsub":
+        import contextlib
+        import io
+        with contextlib.redirect_stdout(io.StringIO()):     # MatrixProductOperator.apply prints a debug value
+            return linsub_direct(inp)
+    if inp["what"] == "cmetric":
+        return cmetric_direct(inp)
+    if inp["what"] == "outer":
+        return outer_direct(inp)
     if inp["what"] == "nonsquare":
         f = nonsquare_direct(inp)
         return f[0] if f else None
